@@ -99,6 +99,29 @@ def get_fn(crate, suffix, sig=None):
     return parse.load_function(path, s, e)
 
 
+def self_methods(crate, type_name):
+    """resolver for Executor(inline=...): `Type::method` called on the analysed function's own
+    self -> the MIR of that method when it is found unambiguously (else None: stays opaque)"""
+    cache = {}
+
+    def resolve(callee):
+        plain = re.sub(r"::<.*?>(?=::|$)", "", callee)
+        m = re.search(r"(?:^|::)%s::(\w+)$" % re.escape(type_name), plain)
+        if not m:
+            return None
+        name = m.group(1)
+        if name not in cache:
+            try:
+                dump(crate)
+                cands = [(s0, e0) for n in _index[crate] if n.endswith("::" + name)
+                         for (s0, e0, head) in _index[crate][n] if re.search(r"_1: &(mut )?([\w:]*::)?%s\b" % re.escape(type_name), head)]
+                cache[name] = parse.load_function(_dumped[crate], *cands[0]) if len(cands) == 1 else None
+            except Exception:
+                cache[name] = None
+        return cache[name]
+    return resolve
+
+
 def replay_crate_dir():
     src = os.path.join(VERIF, "replay")
     if REPO == "/repo":
@@ -152,6 +175,16 @@ def run(pid, mobs, tier, log_dir):
             r = {"verdict": "inconclusive", "why": "%s: %s" % (type(ex).__name__, ex),
                  "trace": traceback.format_exc()[-1500:]}
         r.setdefault("wall_s", round(time.time() - t0, 2))
+        # "the function no longer has the shape this obligation reads" is never a finding:
+        # such clauses make the obligation inconclusive, they are not reported as violations
+        if r.get("verdict") == "counterexample" and r.get("text"):
+            clauses = [c for c in r["text"].split("; ") if c.strip()]
+            shape = [c for c in clauses if re.search(r"\bshape\b[ :(]|not found$|: shape ", c)]
+            real = [c for c in clauses if c not in shape]
+            if shape and not real:
+                r = dict(r, verdict="inconclusive", why="; ".join(shape))
+            elif shape:
+                r = dict(r, text="; ".join(real), shape_notes=shape)
         results.append(r)
     return results
 
